@@ -430,8 +430,13 @@ def run(ctx: Context, rep) -> None:
     # description): same rule as C09.collect's exit part
     from sa.rules.c09 import check_exit_reports
     check_exit_reports(ctx, rep, "C04.report")
-
-
+    # nothing read from the dataset's files / the environment is memoised
+    from sa.rules import shared as _shm
+    _shm.check_no_memo(ctx, rep, "C04.memo")
+    # shard file names never collide across sessions: derived from uuid4()
+    # (same check as C06.who)
+    from sa.rules import shared as _sh04
+    _sh04.share_rules(ctx, rep, "c06", {"C06.who": "C04.names"})
 
 def check_fresh_records(ctx: Context, rep, rule: str) -> None:
     """Every child record (re-)attached to a list by merge_shard_infos is
